@@ -108,6 +108,9 @@ structure St where
   /-- write notification requested from the async runtime (`EVENT_WRITE` registered) -/
   want : Bool := false
   fault : Bool := false
+  /-- `ip == all_users[0]`: the console user - write(2) to stdout instead of send(), no write notification, add_message
+  flushes at its end, process_io flushes it on every pass -/
+  console : Bool := false
   /-- remaining scripted send results -/
   script : List SendRes := []
   /-- ghost: all bytes accepted by send so far, newest first -/
@@ -115,7 +118,8 @@ structure St where
   /-- ghost: all bytes ever stored into the ring, newest first -/
   histR : List Byte := []
 
-def St.init (script : List SendRes := []) : St := { buf := Array.replicate N 0, script := script }
+def St.init (script : List SendRes := []) (console : Bool := false) : St :=
+  { buf := Array.replicate N 0, script := script, console := console }
 
 /-- `iflags & (NET_DEAD | CLOSING)` (or no interactive any more) -/
 def St.gone (s : St) : Bool := s.closed || s.dead
@@ -157,13 +161,19 @@ def pop : List SendRes → SendRes × List SendRes
 def consume (s : St) (m : Nat) (bs : List Byte) (rs : List SendRes) : St :=
   { s with cons := consumerNext s m, len := lengthAfterSend s m, script := rs, sentR := bs.reverse ++ s.sentR }
 
+/-- `if (ip != all_users[0]) async_runtime_modify (.., EVENT_READ, ..)` after a drain -/
+def wantAfterDrain (s : St) : Bool := if s.console then s.want else false
+
+/-- `if (ip != all_users[0]) async_runtime_modify (.., EVENT_READ | EVENT_WRITE, ..)` after EWOULDBLOCK / EINTR -/
+def wantAfterRefusal (s : St) : Bool := if s.console then s.want else true
+
 inductive Outcome where
   | cont (s : St) (ev : Ev)
   | stop (s : St) (evs : List Ev) (ok : Bool)
 
 /-- one iteration of the `while (ip->message_length != 0)` loop of flush_message -/
 def sendStep (s : St) : Outcome :=
-  if s.len = 0 then .stop { s with want := false } [] true
+  if s.len = 0 then .stop { s with want := wantAfterDrain s } [] true
   else
     let n := chunkLen s
     if n = 0 ∨ N < s.cons + n ∨ s.len < n then .stop { s with fault := true } [.fault "chunk"] false
@@ -176,7 +186,7 @@ def sendStep (s : St) : Outcome :=
         .cont (consume s m bs rs) (.send n .acc bs)
       | r =>
         -- `num_bytes == -1`: the regenerated errno classification decides
-        if keepsData r.errno then .stop { s with script := rs, want := true } [.send n r.res []] true
+        if keepsData r.errno then .stop { s with script := rs, want := wantAfterRefusal s } [.send n r.res []] true
         else .stop { s with script := rs, dead := true } [.send n r.res []] false
 
 /-- the send loop; every iteration that continues consumed at least one byte, so `len + 1` fuel always suffices -/
@@ -236,6 +246,10 @@ def addMessage (v : Bool) (data : List Byte) (s : St) : St × List Ev :=
       -- `if ((ip->message_length != 0) && !flush_message (ip)) debug_message (...)`
       let f := if r.1.len ≠ 0 then flushMsg r.1 else (r.1, [], true)
       (f.1, .wbeg v data :: (r.2.1 ++ f.2.1 ++ [.wend]))
+    else if s.console then
+      -- `if (ip == all_users[0]) flush_message (ip);` (not reached after the `return` of a broken connection)
+      let f := if r.2.2 = .ret then (r.1, [], true) else flushMsg r.1
+      (f.1, .wbeg v data :: (r.2.1 ++ f.2.1 ++ [.wend]))
     else
       -- a broken connection `return`s before `async_runtime_modify (.., EVENT_READ | EVENT_WRITE, ..)`
       let s2 := if r.2.2 = .ret then r.1 else { r.1 with want := true }
@@ -253,7 +267,8 @@ inductive Op where
   deriving Repr
 
 def stEv (s : St) : Ev :=
-  if s.closed then .stClosed else .st s.want s.prod s.cons s.len s.dead
+  -- the console is flushed by every process_io pass: a future flush is always guaranteed
+  if s.closed then .stClosed else .st (s.want || s.console) s.prod s.cons s.len s.dead
 
 def step (s : St) : Op → St × List Ev
   | .sendres rs => ({ s with script := s.script ++ rs }, [])
@@ -267,7 +282,7 @@ def step (s : St) : Op → St × List Ev
     if s.closed ∨ s.len = 0 then (s, [stEv s])
     else let r := flushMsg s; (r.1, r.2.1 ++ [stEv r.1])
   | .wready =>
-    if s.closed ∨ s.want = false then (s, [stEv s])
+    if s.closed ∨ (s.want = false ∧ s.console = false) then (s, [stEv s])
     else let r := flushMsg s; (r.1, r.2.1 ++ [stEv r.1])
   | .close =>
     if s.closed then (s, [stEv s])
@@ -287,7 +302,8 @@ def runFrom : St → List Op → St × List Ev
     (r2.1, r.2 ++ r2.2)
 
 /-- a fresh connection, an initial send script, a list of operations -/
-def run (script : List SendRes) (ops : List Op) : St × List Ev := runFrom (St.init script) ops
+def run (script : List SendRes) (ops : List Op) (console : Bool := false) : St × List Ev :=
+  runFrom (St.init script console) ops
 
 def events (r : St × List Ev) : List Ev := r.2
 
